@@ -113,6 +113,7 @@ def errJson : CfgErr → Json
   | .noDatatype p => Json.mkObj [("k", "noDatatype"), ("param", Json.str p)]
   | .needsCfg p => Json.mkObj [("k", "needsCfg"), ("param", Json.str p)]
   | .unknownNames ks => Json.mkObj [("k", "unknownNames"), ("keys", jstrs ks)]
+  | .unknownProp n k => Json.mkObj [("k", "unknownProp"), ("name", Json.str n), ("key", Json.str k)]
   | .mandatory k => Json.mkObj [("k", "mandatory"), ("key", Json.str k)]
   | .badDatatype p => Json.mkObj [("k", "badDatatype"), ("param", Json.str p)]
   | .raised => Json.mkObj [("k", "raised")]
@@ -125,6 +126,7 @@ def parseErr (j : Json) : R CfgErr := do
   | "noDatatype" => return .noDatatype (← fldStr j "param")
   | "needsCfg" => return .needsCfg (← fldStr j "param")
   | "unknownNames" => return .unknownNames (← fldStrs j "keys")
+  | "unknownProp" => return .unknownProp (← fldStr j "name") (← fldStr j "key")
   | "mandatory" => return .mandatory (← fldStr j "key")
   | "badDatatype" => return .badDatatype (← fldStr j "param")
   | "raised" => return .raised
@@ -206,7 +208,6 @@ def handle (j : Json) : R Json := do
                        ("applied", Json.bool (appliedB ops glue c cfg o)),
                        ("writes", Json.bool (writesB ops glue c cfg o)),
                        ("rejected", Json.bool (rejectedB ops c cfg o)),
-                       ("rejectedLimit", Json.bool (rejectedLimitB ops c cfg o)),
                        ("accepted", Json.bool (acceptedB ops c cfg o)),
                        ("whole", Json.bool (wholeB o))]
   | "node" =>
